@@ -118,7 +118,9 @@ class PointSampler:
         """Checks if the Sampler is a ``StaticSampler``, e.g. retuns always the
         same points.
         """
-        return isinstance(self, StaticSampler)
+        return (
+            isinstance(self, StaticSampler) and self.resample_interval == math.inf
+        )
 
     @property
     def is_adaptive(self):
